@@ -210,6 +210,30 @@ def load_checks_presence(ctx: Ctx, rule: str) -> int:
                     what="dds.load returns None when the blob of the path is not in the store")
     return n
 
+
+def load_uses_normalised_path(ctx: Ctx, rule: str) -> int:
+    """dds.load uses its raw argument only to build the normalised path"""
+    rep = ctx.report
+    prog = ctx.prog
+    ld = prog.func("dds._api.load")
+    if ld is None:
+        raise AnchorError("dds._api.load not found")
+    raw = [p_ for p_ in ld.params][:1]
+    n12 = 0
+    for x in ld.own_nodes():
+        if isinstance(x, ast.Name) and raw and x.id == raw[0] and isinstance(x.ctx, ast.Load):
+            par = ld.module.parent.get(x)
+            n12 += 1
+            ok12 = (isinstance(par, ast.Call) and x in par.args and unparse(par.func).split(".")[-1] in ("create", "DDSPath", "str")) or isinstance(par, ast.FormattedValue)
+            desc = f"use of the raw argument `{raw[0]}` of load"
+            if ok12:
+                rep.ok(rule, ld.qname, desc + ": normalisation / message only", ld.loc(x), nontrivial=False)
+            else:
+                rep.bad(rule, ld.qname, desc + " is the normalisation only", ld.loc(x), [f"{ld.loc(x)}: `{unparse(par, 60)}` uses the raw argument",
+                        "dds.load(pathlib.Path('/p')) after the keep of '/p' in the same evaluation: the lookup in the evaluation's map never matches a Path object, "
+                        "the load falls back to the store and returns the previous content"], stmt_key(par), what="load looks the raw (un-normalised) argument up")
+    return n12
+
 def previous_covers_loads(ctx: Ctx, rule: str) -> int:
     """In the visitor of the main analysis, the signature of "what the function did before this call" that is handed to the call inspector
     covers every list in which the visitor records the outcome of an inspected call - the interactions AND the loaded paths: a value read
@@ -517,23 +541,7 @@ def run(ctx: Ctx) -> None:
                         "without changing the reader's signature)")
     pair_keys_rule(ctx, "C09.R11")
     rep.rule("C09.R12", "dds.load uses its raw argument only to build the normalised path: every lookup (evaluation map, store) is made with the normalised value")
-    ld = prog.func("dds._api.load")
-    if ld is None:
-        raise AnchorError("dds._api.load not found")
-    raw = [p_ for p_ in ld.params][:1]
-    n12 = 0
-    for x in ld.own_nodes():
-        if isinstance(x, ast.Name) and raw and x.id == raw[0] and isinstance(x.ctx, ast.Load):
-            par = ld.module.parent.get(x)
-            n12 += 1
-            ok12 = (isinstance(par, ast.Call) and x in par.args and unparse(par.func).split(".")[-1] in ("create", "DDSPath", "str")) or isinstance(par, ast.FormattedValue)
-            desc = f"use of the raw argument `{raw[0]}` of load"
-            if ok12:
-                rep.ok("C09.R12", ld.qname, desc + ": normalisation / message only", ld.loc(x), nontrivial=False)
-            else:
-                rep.bad("C09.R12", ld.qname, desc + " is the normalisation only", ld.loc(x), [f"{ld.loc(x)}: `{unparse(par, 60)}` uses the raw argument",
-                        "dds.load(pathlib.Path('/p')) after the keep of '/p' in the same evaluation: the lookup in the evaluation's map never matches a Path object, "
-                        "the load falls back to the store and returns the previous content"], stmt_key(par), what="load looks the raw (un-normalised) argument up")
+    n12 = load_uses_normalised_path(ctx, "C09.R12")
     rep.floor("C09.R12", n12, 1)
     rep.rule("C09.R13", "the walkers of all_stores / all_loads / all_store_paths leave early only on the 'already visited' test: the sub-calls of a node that "
                         "keeps a path are visited like any others")
@@ -689,6 +697,18 @@ def run(ctx: Ctx) -> None:
                         "reported as an error, not answered with None")
     n18 = load_checks_presence(ctx, "C09.R18")
     rep.floor("C09.R18", n18, 1)
+    from .common import collected_is_used
+    rep.rule("C09.R20", "what the analysis collects it hands on: the interactions found in the methods of a class, in the sub-calls and in the loads of a function are part of the record "
+                        "the inspector returns (a local collection that is filled is also read)")
+    n20 = collected_is_used(ctx, "C09.R20", ("dds.introspect", "dds._introspect_indirect"),
+                            "`x = dds.load(p); Source().refresh()` where the method refresh keeps p: the keep inside the method is not seen by the pre-analysis, the load before it is "
+                            "accepted and answers None; a reader that loads through `Reader().read()` is not invalidated when the path changes")
+    rep.floor("C09.R20", n20, 2)
+    from . import storerules as _S9
+    rep.rule("C09.R19", "as C07.R14: the local store resolves the link of a path only after it saw that the link exists: a path that was never kept (next to a kept one) is reported "
+                        "missing - dds.load does not return None for it, and a reader is not evaluated on None")
+    n19 = _S9.reads_after_presence(ctx, _S9.LocalView(ctx), "C09.R19")
+    rep.floor("C09.R19", n19, 3)
     rep.rule("C09.R16", "the signature of the previous steps that keys a call with run-time arguments covers the paths loaded so far, not only the calls made so far")
     n16 = previous_covers_loads(ctx, "C09.R16")
     rep.floor("C09.R16", n16, 2)
